@@ -6,7 +6,7 @@ from hexlib import HexaryTrie, rlp, _nib
 from trie.exceptions import MissingTrieNode, MissingTraversalNode, TraversedPartialPath
 
 ID = "C07"
-LEAN_IMPORTS = ["PyTrie.Props.C07", "PyTrie.Props.NonVacuity3", "PyTrie.Props.FreeExec", "PyTrie.Props.FreeBatch"]
+LEAN_IMPORTS = ["PyTrie.Props.C07", "PyTrie.Props.NonVacuity3", "PyTrie.Props.FreeExec", "PyTrie.Props.FreeBatch", "PyTrie.Props.C07Retry", "PyTrie.Props.NonVacuity12"]
 THEOREMS = [
     "PyTrie.Props.Free.beam_invariant_step",
     "PyTrie.Props.Free.beam_history_lockstep",
@@ -56,6 +56,12 @@ THEOREMS = [
     "PyTrie.Props.Free.partial_kept_by_op",
     "PyTrie.HexFree.Cex.partial_insert_node_needs_canon",
     "PyTrie.HexFree.Cex.opSetDel_partial_preserved_needs_hold",
+    "PyTrie.Props.C07.get_retry_loop_converges",
+    "PyTrie.Props.C07.op_retry_loop_converges",
+    "PyTrie.Props.NonVacuity12.get_loop_witness",
+    "PyTrie.Props.NonVacuity12.get_loop_evaluated",
+    "PyTrie.Props.NonVacuity12.op_loop_witness",
+    "PyTrie.Props.NonVacuity12.op_loop_evaluated",
 ]
 RULE = ("tries built by generated histories (prune on/off), then a subset of node bodies removed from the database (every "
         "subset for small tries, random subsets otherwise, single nodes, everything), then one operation — get, exists, set, "
